@@ -84,6 +84,9 @@ fn c09_build<V: V9>(regime: &str, read: &str) -> Option<Scn>
 where
     V::ReadOnly: Send,
 {
+    if regime == "scan_across_reuse" {
+        return c09_scan_reuse::<V>();
+    }
     let compressed = V::F != "Bytes";
     let (_, stored, pushed) = *c09_regimes(compressed).iter().find(|r| r.0 == regime)?;
     let tmp = TempDir::new("c09");
@@ -179,6 +182,85 @@ where
     Some(Scn { tmp, jobs: vec![("writer".into(), writer), ("reader".into(), reader)], check })
 }
 
+/// A scan through the file-IO back-end (which reads the data file through its own handle and
+/// refills a 512 KiB buffer) while the writer's write() relocates the vector's region, two
+/// flushes make the old extent reusable and another region is created and written there. Every
+/// element the scan delivers must still be the one pushed at that index.
+fn c09_scan_reuse<V: V9>() -> Option<Scn>
+where
+    V::ReadOnly: Send,
+{
+    let big = |i: usize| crate::common::mix64(0x5ca9, i as u64);
+    const STORED: usize = 70_000; // 560 000 bytes of incompressible values: more than one refill, reserve 1 MiB
+    const PUSHED: usize = 70_000; // the write outgrows the reserve: relocation (a region sits right behind)
+    let tmp = TempDir::new("c09s");
+    let db = Database::open(tmp.path()).ok()?;
+    let mut v: V = V::forced_import(&db, "v", Version::new(1)).ok()?;
+    for i in 0..STORED {
+        v.push(big(i));
+    }
+    v.write().ok()?;
+    let other = db.create_region_if_needed("other").ok()?;
+    other.write(&[0xAB; 100]).ok()?;
+    db.flush().ok()?;
+    for i in STORED..STORED + PUSHED {
+        v.push(big(i));
+    }
+    let ro = v.read_only_clone();
+    let obs: Obs = Arc::new(Mutex::new(vec![]));
+    let o2 = obs.clone();
+    let db2 = db.clone();
+    let writer: Job = Box::new(move || {
+        let mut v = v;
+        v.write().expect("write");
+        db2.flush().expect("flush"); // frees the old extent ...
+        db2.flush().expect("flush"); // ... and so does an idle flush
+        let fresh = db2.create_region_if_needed("fresh").expect("create");
+        fresh.write(&vec![0xEE; 1 << 20]).expect("write fresh"); // may land on the old extent
+        drop(v);
+    });
+    let reader: Job = Box::new(move || {
+        vecdb::verif::set_mmap_crossover_bytes(0);
+        for round in 0..2 {
+            let len = ro.len();
+            let mut i = 0usize;
+            let mut first_bad = None;
+            let n = ro.fold_range_at(0, len, 0usize, |n, x| {
+                if i == 1 && round == 0 {
+                    // the first buffer is loaded: let the writer do all of its work here
+                    rawdb::verif::point("harness:scan_after_first_refill");
+                }
+                if x != big(i) && first_bad.is_none() {
+                    first_bad = Some((i, x));
+                }
+                i += 1;
+                n + 1
+            });
+            let mut bad = |what: String| o2.lock().unwrap().push(what);
+            if len != STORED && len != STORED + PUSHED {
+                bad(format!("impossible-length:: observed length {len}"));
+            }
+            if n != len {
+                bad(format!("short-read:: round {round}: length {len} observed but the scan visited {n} elements"));
+            }
+            if let Some((i, x)) = first_bad {
+                // compressed formats: the stored prefix ends in a partial raw page (69 632..70 000)
+                // which the writer re-encodes in place - the listed finding KF-C09-1, reached here
+                // through the scan; anything below that page is something else
+                let class = if V::F != "Bytes" && i >= STORED / 2048 * 2048 && i < STORED && len == STORED { "last-raw-page-reencoded" } else { "wrong-element" };
+                bad(format!("{class}:: round {round}: the file-IO scan delivered {x:#x} for element {i}, {:#x} was pushed there (length observed: {len})", big(i)));
+            }
+        }
+        vecdb::verif::reset_knobs();
+    });
+    let check = Box::new(move |_punches: &[sched::PunchRec]| {
+        let o = obs.lock().unwrap();
+        let _keep = &db;
+        if let Some(first) = o.first() { Err(first.clone()) } else { Ok(()) }
+    });
+    Some(Scn { tmp, jobs: vec![("writer".into(), writer), ("reader".into(), reader)], check })
+}
+
 fn c09_keys() -> Vec<String> {
     let mut out = vec![];
     for f in ["Bytes", "Pco", "LZ4", "Zstd"] {
@@ -190,6 +272,9 @@ fn c09_keys() -> Vec<String> {
                 out.push(format!("c09|{f}|{r}|{rd}"));
             }
         }
+    }
+    for f in ["Bytes", "LZ4"] {
+        out.push(format!("c09|{f}|scan_across_reuse|fold_io"));
     }
     out
 }
@@ -477,6 +562,45 @@ fn c10_build(kind: &str) -> Option<Scn> {
             Some(Scn { tmp, jobs, check })
         }
         // a reader held across relocation + flush + reuse of the old extent
+        // a thread creates a region in a promoted hole and writes it while another compacts: the
+        // creator's bytes must survive (the hole list compaction works from must not be stale)
+        "create_vs_compact" | "create_small_vs_compact" => {
+            let w = world(&tmp, 0, false)?;
+            let db = w.db.clone();
+            let size = if kind == "create_vs_compact" { 4096 } else { 100 };
+            let data = payload(88, size);
+            let (db1, d1) = (db.clone(), data.clone());
+            let writer: Job = Box::new(move || {
+                let r = db1.create_region_if_needed("fresh").unwrap();
+                r.write(&d1).unwrap();
+            });
+            let db2 = db.clone();
+            let compactor: Job = Box::new(move || {
+                db2.compact().unwrap();
+            });
+            let others: Vec<(String, Vec<u8>)> = ["a", "b", "c", "d", "e", "last"].iter().map(|n| (n.to_string(), db.get_region(n).unwrap().create_reader().read_all().to_vec())).collect();
+            let check = Box::new(move |punches: &[sched::PunchRec]| {
+                let r = db.get_region("fresh").ok_or("the created region does not exist")?;
+                let got = r.create_reader().read_all().to_vec();
+                if got != data {
+                    let at = got.iter().zip(&data).position(|(a, b)| a != b).unwrap_or(got.len().min(data.len()));
+                    let abs = r.meta().start() + at;
+                    let culprit = punches.iter().rev().find(|p| p.off <= abs && abs < p.off + p.len);
+                    let writer_state = culprit.and_then(|p| p.threads.iter().find(|t| t.0 == "writer").map(|t| t.1.clone())).unwrap_or_else(|| "no-punch-covers-it".into());
+                    // same window as the finding listed under C12: bytes copied into the reserve,
+                    // length not yet published, compaction punches "beyond the length"
+                    let class = if writer_state.starts_with("unpublished") { "appended-bytes-lost".to_string() } else { format!("bytes-lost-while-writer-{writer_state}") };
+                    return Err(format!("{class}:: a region created and written while compact() ran has {} bytes (expected {}), first difference at offset {at}: {:?} vs {:?}", got.len(), data.len(), got.get(at), data.get(at)));
+                }
+                for (n, bytes) in &others {
+                    if db.get_region(n).unwrap().create_reader().read_all() != &bytes[..] {
+                        return Err(format!("region {n}, which no thread touched, changed"));
+                    }
+                }
+                check_layout(&db).map(|_| ()).map_err(|e| format!("extent invariant broken at quiescence: {e}"))
+            });
+            Some(Scn { tmp, jobs: vec![("writer".into(), writer), ("compact".into(), compactor)], check })
+        }
         "reader_across_reuse" | "reader_across_remove" => {
             let db = Database::open_with_min_len(tmp.path(), 1 << 20).ok()?;
             let r = db.create_region_if_needed("r").ok()?;
@@ -521,6 +645,189 @@ fn c10_build(kind: &str) -> Option<Scn> {
         }
         _ => None,
     }
+}
+
+/// Randomised isolation scripts: `n` selects (through the PRNG) the pre-state, the number of
+/// workers and every worker's own sequence of operations on its own regions (appends through
+/// every placement path, write_at, truncate, truncate_write, rename, remove + re-create, a second
+/// and third region, region flush, database flush). Every worker compares all of its regions with
+/// its own byte model after every operation; at quiescence the extent invariants, every worker's
+/// final contents, the regions nobody touched and the absence of stray regions are checked.
+/// compact() is not part of the scripts: writer-vs-compact is C12's scenario (and its known finding).
+fn c10_isorand(n: u64) -> Option<Scn> {
+    let tmp = TempDir::new("c10r");
+    let mut rng = Rng::derive(n, &[10, 77]);
+    let db = if rng.chance(1, 2) { world(&tmp, 0, false)?.db } else { Database::open(tmp.path()).ok()? };
+    let untouched: Vec<(String, Vec<u8>)> = {
+        let names: Vec<String> = db.regions().id_to_index().keys().map(|k| k.to_string()).collect();
+        names.into_iter().filter_map(|k| db.get_region(&k).map(|r| (k, r.create_reader().read_all().to_vec()))).collect()
+    };
+    let workers = 2 + rng.below(2);
+    let expected: Arc<Mutex<BTreeMap<String, Vec<u8>>>> = Arc::new(Mutex::new(BTreeMap::new()));
+    let mut jobs: Vec<(String, Job)> = vec![];
+    for t in 0..workers {
+        let steps = rng.range(5, 10);
+        let script: Vec<(usize, usize, usize)> = (0..steps).map(|_| (rng.below(14), rng.next_u64() as usize >> 8, rng.next_u64() as usize >> 8)).collect();
+        let db = db.clone();
+        let exp = expected.clone();
+        jobs.push((
+            format!("worker{t}"),
+            Box::new(move || {
+                let mut own: Vec<(String, Region, Vec<u8>)> = vec![];
+                let mut serial = (n.wrapping_mul(31) + t as u64) * 1000;
+                let mut fresh = 0usize;
+                let mut written: BTreeSet<String> = BTreeSet::new();
+                let mut new_name = |fresh: &mut usize| {
+                    *fresh += 1;
+                    format!("w{t}_{}", *fresh)
+                };
+                let name = new_name(&mut fresh);
+                let r = db.create_region_if_needed(&name).unwrap();
+                own.push((name, r, vec![]));
+                let check = |own: &Vec<(String, Region, Vec<u8>)>, when: &str| {
+                    for (name, r, model) in own {
+                        let rd = r.create_reader();
+                        let got = rd.read_all().to_vec();
+                        drop(rd);
+                        if got != *model {
+                            let at = got.iter().zip(model).position(|(a, b)| a != b).unwrap_or(got.len().min(model.len()));
+                            panic!("isolation: region {name} differs from its own thread's model after {when} (len {} vs {}, first difference at {at})", got.len(), model.len());
+                        }
+                        assert!(r.meta().id() == name, "isolation: region {name} is called {} after {when}", r.meta().id());
+                    }
+                };
+                const SIZES: [usize; 9] = [1, 100, 3000, 4096, 4097, 5000, 9000, 20_000, 70_000];
+                for (op, a, b) in script {
+                    let k = a % own.len();
+                    let len = own[k].2.len();
+                    serial += 1;
+                    let when = match op {
+                        0..=3 => {
+                            let p = payload(serial, SIZES[b % SIZES.len()]);
+                            own[k].1.write(&p).unwrap();
+                            own[k].2.extend_from_slice(&p);
+                            "append"
+                        }
+                        4 => {
+                            if len > 0 {
+                                let at = b % len;
+                                let p = payload(serial, 1 + (a / 7) % 300);
+                                own[k].1.write_at(&p, at).unwrap();
+                                let end = at + p.len();
+                                if end > own[k].2.len() {
+                                    own[k].2.resize(end, 0);
+                                }
+                                own[k].2[at..end].copy_from_slice(&p);
+                            }
+                            "write_at"
+                        }
+                        5 => {
+                            let from = b % (len + 1);
+                            own[k].1.truncate(from).unwrap();
+                            own[k].2.truncate(from);
+                            "truncate"
+                        }
+                        6 => {
+                            let at = b % (len + 1);
+                            let p = payload(serial, [10usize, 5000, 13_000][(a / 3) % 3]);
+                            own[k].1.truncate_write(at, &p).unwrap();
+                            own[k].2.truncate(at);
+                            own[k].2.extend_from_slice(&p);
+                            "truncate_write"
+                        }
+                        7 => {
+                            let to = new_name(&mut fresh);
+                            own[k].1.rename(&to).unwrap();
+                            own[k].0 = to;
+                            "rename"
+                        }
+                        8 => {
+                            let (old_name, r, old_model) = own.remove(k);
+                            match r.remove() {
+                                Ok(()) => {}
+                                // another thread's Database::flush holds clones of every dirty
+                                // region while it runs: a legitimate refusal, nothing changes
+                                Err(rawdb::Error::RegionStillReferenced { .. }) => {
+                                    let r = db.get_region(&old_name).expect("isolation: a region whose removal was refused disappeared");
+                                    own.push((old_name, r, old_model));
+                                    check(&own, "refused remove");
+                                    continue;
+                                }
+                                Err(e) => panic!("isolation: remove of {old_name} failed: {e}"),
+                            }
+                            let name = new_name(&mut fresh);
+                            let r = db.create_region_if_needed(&name).unwrap();
+                            let p = payload(serial, 10 + b % 6000);
+                            r.write(&p).unwrap();
+                            own.push((name, r, p));
+                            "remove + create"
+                        }
+                        9 | 10 => {
+                            if own.len() < 3 {
+                                let name = new_name(&mut fresh);
+                                let r = db.create_region_if_needed(&name).unwrap();
+                                let p = payload(serial, b % 9000);
+                                r.write(&p).unwrap();
+                                own.push((name, r, p));
+                            }
+                            "create"
+                        }
+                        11 => {
+                            // a region that was created and never given a byte has no metadata
+                            // slot yet; Region::flush says so (C01 tolerates the same)
+                            match own[k].1.flush() {
+                                Ok(_) => {}
+                                Err(rawdb::Error::RegionMetadataUnwritten) if !written.contains(&own[k].0) => {}
+                                Err(e) => panic!("isolation: Region::flush of {} failed: {e}", own[k].0),
+                            }
+                            "region flush"
+                        }
+                        _ => {
+                            db.flush().unwrap();
+                            "database flush"
+                        }
+                    };
+                    for o in &own {
+                        if !o.2.is_empty() {
+                            written.insert(o.0.clone());
+                        }
+                    }
+                    if std::env::var("VERIF_DEBUG_SCHED").is_ok() {
+                        eprintln!("isorand worker{t}: op {op} = {when} on {} (len {len} -> {})", own.get(k).map(|o| o.0.as_str()).unwrap_or("?"), own.get(k).map(|o| o.2.len()).unwrap_or(0));
+                    }
+                    check(&own, when);
+                }
+                let mut e = exp.lock().unwrap();
+                for (name, _, model) in own {
+                    e.insert(name, model);
+                }
+            }),
+        ));
+    }
+    let check = Box::new(move |_punches: &[sched::PunchRec]| {
+        check_layout(&db).map_err(|e| format!("extent invariant broken at quiescence: {e}"))?;
+        let exp = expected.lock().unwrap();
+        for (n, m) in exp.iter() {
+            let r = db.get_region(n).ok_or(format!("region {n} disappeared"))?;
+            if r.create_reader().read_all() != &m[..] {
+                return Err(format!("final contents of {n} differ from its thread's model"));
+            }
+        }
+        for (n, m) in &untouched {
+            let r = db.get_region(n).ok_or(format!("untouched region {n} disappeared"))?;
+            if r.create_reader().read_all() != &m[..] {
+                return Err(format!("region {n}, which no thread touched, changed"));
+            }
+        }
+        let names: Vec<String> = db.regions().id_to_index().keys().map(|k| k.to_string()).collect();
+        for k in names {
+            if !exp.contains_key(&k) && !untouched.iter().any(|(n, _)| *n == k) {
+                return Err(format!("stray region {k} exists at quiescence (renamed away or removed by its owner)"));
+            }
+        }
+        Ok(())
+    });
+    Some(Scn { tmp, jobs, check })
 }
 
 // ---------------------------------------------------------------------------------------------
@@ -599,6 +906,7 @@ pub fn build(key: &str) -> Option<Scn> {
             "Zstd" => c09_build::<ZstdVec<usize, u64>>(regime, read),
             _ => None,
         },
+        ["c10", "isorand", n] => c10_isorand(n.parse().ok()?),
         ["c10", kind] => c10_build(kind),
         ["c11", ops @ ..] => c11_build(ops),
         ["c12", kind] => c12_build(kind),
@@ -864,6 +1172,13 @@ pub fn check_c09(ctx: &Ctx) -> i32 {
     let results = crate::common::run_shards(1, |_| {
         let mut out = vec![];
         for key in &keys {
+            if key.contains("|scan_across_reuse|") {
+                // few, long runs: one pre-emption (the reader parked inside its scan while the
+                // writer does everything) is the family that matters; enumerate it completely
+                let ex = explore(key, Mode::Dfs { max_preempt: ctx.pick(1, 2), max_runs: ctx.pick(260, 3000) }, ctx.elapsed() + ctx.secs(10.0, 60.0), ctx);
+                out.push((key.clone(), ex));
+                continue;
+            }
             let d = ctx.elapsed() + per;
             let ex = explore(key, Mode::Mixed { random_first: ctx.pick(12, 60), seed: ctx.seed, max_preempt: ctx.pick(2, 3), max_runs: ctx.pick(400, 4000) }, d, ctx);
             out.push((key.clone(), ex));
@@ -874,7 +1189,7 @@ pub fn check_c09(ctx: &Ctx) -> i32 {
         agg.absorb(ctx, &report, "C09", &key, ex, true);
     }
     let mut cov = agg.coverage(RULE_SCHED);
-    cov["scenario_space"] = json!({"formats": ["Bytes", "Pco", "LZ4", "Zstd"], "write_regimes": {"raw": c09_regimes(false).iter().map(|r| r.0).collect::<Vec<_>>(), "compressed": c09_regimes(true).iter().map(|r| r.0).collect::<Vec<_>>()}, "reader_operations": C09_READS});
+    cov["scenario_space"] = json!({"formats": ["Bytes", "Pco", "LZ4", "Zstd"], "write_regimes": {"raw": c09_regimes(false).iter().map(|r| r.0).collect::<Vec<_>>(), "compressed": c09_regimes(true).iter().map(|r| r.0).collect::<Vec<_>>()}, "reader_operations": C09_READS, "directed": "scan_across_reuse (file-IO scan of a 560 KB vector across relocation + flushes + reuse of the old extent), Bytes and LZ4"});
     report.finish(ctx, "exploration", cov, &["one writer and one reader thread; the reader performs two reads per run (length monotonicity)", "pre-emption bound 2 (thorough: 3) per schedule"])
 }
 
@@ -887,7 +1202,23 @@ pub fn check_c10(ctx: &Ctx) -> i32 {
         ("c10|create_at_file_boundary", Mode::Dfs { max_preempt: 2, max_runs: ctx.pick(300, 3000) }),
         ("c10|reader_across_reuse", Mode::Mixed { random_first: 30, seed: ctx.seed, max_preempt: 3, max_runs: ctx.pick(400, 4000) }),
         ("c10|isolation3", Mode::Random { runs: ctx.pick(150, 3000), seed: ctx.seed }),
+        ("c10|create_vs_compact", Mode::Dfs { max_preempt: ctx.pick(2, 3), max_runs: ctx.pick(400, 4000) }),
+        ("c10|create_small_vs_compact", Mode::Dfs { max_preempt: ctx.pick(2, 3), max_runs: ctx.pick(300, 3000) }),
     ];
+    // randomised isolation scripts: a fresh set per seed, each explored with random schedules and
+    // then depth-first with one pre-emption
+    let scripts = ctx.pick(24, 240);
+    let rand_deadline = ctx.elapsed() + ctx.secs(20.0, 200.0);
+    for i in 0..scripts {
+        if ctx.elapsed() > rand_deadline || report.failures_seen() >= 6 {
+            break;
+        }
+        let key = format!("c10|isorand|{}", ctx.seed.wrapping_mul(100_003).wrapping_add(i as u64));
+        let per = (rand_deadline - ctx.elapsed()).max(0.5) / (scripts - i) as f64;
+        let ex = explore(&key, Mode::Mixed { random_first: ctx.pick(10, 40), seed: ctx.seed ^ i as u64, max_preempt: 1, max_runs: ctx.pick(40, 400) }, ctx.elapsed() + per * 1.5, ctx);
+        agg.absorb(ctx, &report, "C10", &key, ex, true);
+        agg.stats.bump("isorand_scripts");
+    }
     let n = plan.len() as f64;
     for (key, mode) in plan {
         let d = ctx.elapsed() + (deadline - ctx.elapsed()).max(1.0) / n.max(1.0) * 1.5;
